@@ -19,14 +19,6 @@ import (
 	"verifkit"
 )
 
-type vSink struct {
-	bytes.Buffer
-	cancelled bool
-}
-
-func (s *vSink) ID() string    { return "verif" }
-func (s *vSink) Cancel() error { s.cancelled = true; return nil }
-func (s *vSink) Close() error  { return nil }
 
 // vCanonFull is vCanon plus deletion/truncation stamps: the form a snapshot must preserve.
 func vCanonFull(d *Data) string {
